@@ -17,7 +17,28 @@ pub struct LockServer {
     pub listener: Option<tokio::net::TcpListener>,
 }
 //!end
+// the text of an address (format!("{}:{}")): a function of the host and the port NUMBER as configured
+pub uninterp spec fn addr_text(host: Seq<char>, port: int) -> Seq<char>;
+#[verifier::external_body] pub fn host_port(host: &String, port: usize) -> (r: String) ensures r@ == addr_text(host@, port as int) { unimplemented!() }
+#[verifier::external_body] pub fn duration_from_millis(ms: u64) -> std::time::Duration { unimplemented!() }
 impl LockServer {
+//!fn src/core/server.rs LockServer::new rules=R12 props=C14
+    pub(crate) fn new(config: LockServerConfig) -> ⟦(r: ⟧Self⟦)⟧
+@        ensures
+@            // C14: the address every invocation contends for is the configured host and port, as written - two invocations of one
+@            // configuration always name the same address - and nothing is held yet
+@            r.address@ == addr_text(config.host@, config.port as int), r.listener is None, // [C14]
+    {
+        let address = host_port(&config.host, config.port);
+        let bind_timeout = duration_from_millis(config.bind_timeout_ms);
+        Self {
+            config,
+            address,
+            bind_timeout,
+            listener: None,
+        }
+    }
+//!end
 //!fn src/core/server.rs LockServer::acquire rules=R1,R7,R10 props=C14
     pub(crate) async fn acquire(self__0: Self, Tracked(w): Tracked<&mut World>) -> ⟦(res: ⟧Result<Self, ServerError>⟦)⟧
 @        ensures
